@@ -10,7 +10,7 @@ from ..runner import Result
 from ..ref import report
 
 ID = 'C07'
-RULE = ('Generated: rule-conforming antennas in free space, over ideal and real ground, 1..4 sources on distinct '
+RULE = ('Generated: rule-conforming antennas in free space, over ideal and real ground, 0..2 lumped loads, 1..4 sources on distinct '
         'interior / junction / grounded pulses with complex voltages (polar, 1e-3..1e3 V), a complex factor c.  '
         'Oracle: I(cV) = c I(V) with unchanged impedances and dBi pattern (also when a power level 1e-3..1e5 W is '
         'requested for the field table); I(V1..Vn) = sum of I(Vi alone, others '
@@ -20,13 +20,21 @@ RULE = ('Generated: rule-conforming antennas in free space, over ideal and real 
 BUDGET = {'quick': {'examples': 1200, 'wall': 200}, 'thorough': {'examples': 40000, 'wall': 1500}}
 ASSUMPTIONS = ['tolerance 1e-9 * cond(Z) relative to the largest current (direct solve)',
                'voltage line of SOURCE DATA is a fixed-point field (1e-6 absolute)']
-LABEL_FLOORS = {'multi-source': 0.4, 'src-junc': 0.1, 'src-gnd': 0.05, 'env-real': 0.1}
+LABEL_FLOORS = {'multi-source': 0.4, 'src-junc': 0.1, 'src-gnd': 0.05, 'env-real': 0.1, 'loaded': 0.3}
 
 
 @st.composite
 def case_strategy(draw, big=False):
     case = draw(gen.antenna(env_kinds=('free', 'ideal', 'ideal', 'real'), max_wires=4, max_seg=8 if not big else 14,
                             nsrc=(1, 4), taper_prob=0.1))
+    # 0..2 lumped loads: linearity in the source voltages holds for the loaded antenna as well
+    npl = len(gen.stand_in_topology(case)[0].pulses)
+    lds = []
+    for i in range(draw(st.sampled_from([0, 0, 1, 2]))):
+        l = draw(gen.lumped_load(kinds=('z', 'rlc')))
+        l['attach'] = [draw(st.integers(0, npl - 1))]
+        lds.append(l)
+    case['loads'] = lds
     ph = draw(st.floats(0, 2 * math.pi))
     mag = draw(gen.logf(1e-3, 1e3))
     case['factor'] = [gen.r6(mag * math.cos(ph)), gen.r6(mag * math.sin(ph))]
@@ -53,6 +61,8 @@ def check(case):
         return Result(skipped='rejected: ' + str(e)[:40])
     srcs = case['sources']
     labels = common.base_labels(case)
+    if case.get('loads'):
+        labels.append('loaded')
     phases = [cmath.phase(complex(*s['v'])) for s in srcs]
     nt = (len(srcs) >= 2 and max(phases) - min(phases) > 1e-3) or any(s.get('_kind') in ('junc', 'gnd') for s in srcs)
     c = common.cond(m)
